@@ -1,10 +1,44 @@
 """C04: non-collapsing stores behave as exact index -> count maps."""
-from . import storecheck
+import random
+from fractions import Fraction
+from . import storecheck, storegen
+from .core import Case
+
+def pag_cycles(rng):
+    """Deliberate: the paginated store around its compaction points. Phases of [k unit adds inside one page, then j unit adds far
+    apart in random / decreasing order] with k, j around the buffer capacities and trigger lengths (32, 64, 96, 128), observed only
+    at the end of a phase (a read in the middle would re-sort the buffer and hide stale-order bugs)."""
+    out = []
+    sizes = [31, 32, 33, 47, 63, 64, 65, 95, 96, 97, 127, 128, 129]
+    for j in range(60):
+        kind = rng.choice(["pag", "pag", "pag", "sparse", "dense"]); lines = ["new s " + kind, "new t sparse"]; exp = ["ok", "ok"]
+        sh = storegen.Shadow(kind); st = storegen.Shadow("sparse")
+        base = rng.randint(-3000, 3000) * 32
+        for phase in range(rng.randint(1, 4)):
+            k = rng.choice(sizes); page = base + 32 * rng.randint(-3, 3)
+            for _ in range(k):
+                i = page + rng.randint(0, 31); lines.append("add s %d" % i); exp.append("ok"); sh.add(i, Fraction(1))
+            far = [base + 32 * rng.randint(-60, 60) + rng.randint(0, 31) for _ in range(rng.choice(sizes + [0, 1, 5]))]
+            order = rng.choice(["dec", "inc", "rand"])
+            far = sorted(far, reverse=(order == "dec")) if order != "rand" else far
+            for i in far:
+                lines.append("add s %d" % i); exp.append("ok"); sh.add(i, Fraction(1))
+            lines.append("obs s"); exp.append(sh.obsline())
+            tot = sh.total()
+            for r in [Fraction(0), tot - 1, tot / 2, Fraction(int(tot) // 3), tot - Fraction(1, 2), Fraction(rng.randint(0, int(tot)))]:
+                if r >= 0: lines.append("rank s %s" % storegen.wh(r)); exp.append(str(sh.rank(r)))
+            if rng.random() < 0.3: lines += ["merge t s", "obs t"]; st.merge(sh); exp += ["ok", st.obsline()]
+        lines.append("layout s"); exp.append(None)
+        out.append((Case("cyc%d" % j, lines, {"kinds": [kind, "sparse"]}), exp))
+    return out
+
 def run(tier, seed):
     return storecheck.run_store_property(
         "C04", tier, seed, ["dense", "sparse", "pag", "pag", "dense"], 400 if tier == "quick" else 12000,
         "random programs over 2-4 store registers of kinds dense/sparse/paginated: unit, weighted and bin additions, cross-kind merges, copies "
         "(followed by a mutation of one side), clears, reweightings, encode->decode into another register, bursts of unit adds (buffer compaction, "
         "array growth/shift), observers after every structural step, KeyAtRank at every cumulative boundary +-2^-10, negative and >= total; indexes clustered, "
-        "page/array-boundary aligned, near the int32 extremes, far apart when no dense store is involved. distinct_nontrivial = distinct programs with at "
-        "least two observations of a store holding two or more bins")
+        "page/array-boundary aligned, near the int32 extremes, far apart when no dense store is involved; plus 60 'compaction cycle' programs on the paginated store "
+        "(k in-page unit adds then j far-apart adds in decreasing/increasing/random order, k and j around 32/64/96/128, observed only at phase ends). "
+        "distinct_nontrivial = distinct programs with at least two observations of a store holding two or more bins",
+        extra_cases=pag_cycles)
